@@ -619,7 +619,7 @@ func (r *runner) writeDriver(sc *Scenario, results []*DeclResult, mode string) {
 	has := func(m string) bool { return strings.Contains(","+mode+",", ","+m+",") }
 	var sb strings.Builder
 	sb.WriteString("package " + pkg + "\n\nimport (\n\t\"context\"\n\t\"errors\"\n\t\"fmt\"\n\t\"io\"\n\t\"math\"\n\t\"strconv\"\n\t\"strings\"\n\t\"testing\"\n\n\t\"scen/rt\"\n)\n\n")
-	sb.WriteString("var _ = math.Pi\nvar _ = strconv.Itoa\nvar _ = errors.New\nvar _ = context.Background\nvar _ = strings.Join\nvar _ = testing.AllocsPerRun\n\n")
+	sb.WriteString("var _ = math.Pi\nvar _ = strconv.Itoa\nvar _ = errors.New\nvar _ = context.Background\nvar _ = strings.Join\nvar _ = testing.AllocsPerRun\nvar _ = fmt.Sprint\nvar _ = rt.Repr\n\n")
 	sb.WriteString("func Run(w io.Writer) {\n")
 	for _, dr := range results {
 		if dr.File == "" {
